@@ -378,7 +378,12 @@ func (g *vgen) action(depth int) *Act {
 		return &Act{K: "ss", S: g.str()}
 	case 16, 17:
 		if depth > 0 {
-			args, f := g.formatFor(depth-1, 1+r.intn(2))
+			args, f := g.formatFor(depth-1, r.intn(3))
+			return &Act{K: "printf", S: f, Args: args}
+		}
+		if r.coin(1, 2) {
+			// a format without operands (often without any directive)
+			args, f := g.formatFor(0, 0)
 			return &Act{K: "printf", S: f, Args: args}
 		}
 		return &Act{K: "us", S: g.str()}
@@ -442,7 +447,11 @@ func (g *vgen) directive(v *Val, star *[]*Val) string {
 	if r.coin(1, 4) {
 		switch r.intn(4) {
 		case 0, 1:
-			sb.WriteString(strconv.Itoa(r.intn(12)))
+			if r.coin(1, 8) {
+				sb.WriteString(strconv.Itoa(60 + r.intn(80))) // around the size of the integer scratch array
+			} else {
+				sb.WriteString(strconv.Itoa(r.intn(12)))
+			}
 		case 2:
 			sb.WriteString("*")
 			*star = append(*star, &Val{K: "i", GoT: "int", I: int64(r.intn(14)) - 3})
@@ -459,7 +468,11 @@ func (g *vgen) directive(v *Val, star *[]*Val) string {
 		sb.WriteByte('.')
 		switch r.intn(4) {
 		case 0, 1:
-			sb.WriteString(strconv.Itoa(r.intn(8)))
+			if r.coin(1, 10) {
+				sb.WriteString(strconv.Itoa(60 + r.intn(80)))
+			} else {
+				sb.WriteString(strconv.Itoa(r.intn(8)))
+			}
 		case 2:
 			sb.WriteString("*")
 			*star = append(*star, &Val{K: "i", GoT: "int", I: int64(r.intn(9)) - 2})
@@ -933,6 +946,9 @@ func postCheck(ret *string, entry string) string {
 	p, _ := try(func() { got = churn() })
 	out := ""
 	okC := !p && got == churnWant
+	if p {
+		out += "\n" + fmt.Sprintf("(qtrue C11 %s 0 %s)", hxs("after this call, an ordinary user-method panic escapes from an unrelated printing call"), hxs("after "+entry))
+	}
 	if !okC {
 		out += "\n" + fmt.Sprintf("(qtrue C12 %s %s %s)", hxs("after this call, unrelated calls on recycled printers differ from those of a fresh process"), b01(okC),
 			hxs(fmt.Sprintf("got %q want %q after %s", got, churnWant, entry)))
